@@ -66,6 +66,14 @@ func oracle(c Case) *ev.Verdict {
 		return nil
 	}
 	// accepted: Example() must terminate with finite JSON
+	if unfoldWork(p, 100000) >= 100000 {
+		// The example builder enters every type up to twice per path and tries the alternatives of a choice one
+		// after the other: a handful of mutually referring types is, legitimately, millions of steps and
+		// megabytes of output - finite, which is all the property asks for, but nothing a watchdog can tell
+		// from a hang. Such projects are judged for their verdict only.
+		ev.Excluded("graphs", "Example() not asked: the whole unfolding of the project exceeds 100 000 steps")
+		return nil
+	}
 	type res struct {
 		ex  []byte
 		err error
@@ -97,10 +105,80 @@ func oracle(c Case) *ev.Verdict {
 			cl := "invalid-json"
 			return ev.V("example:"+cl, "Example() is not RFC 8259 JSON: %s\n%s", clip(string(r.ex), 300), tp)
 		}
-	case <-time.After(180 * time.Second): // (generous: the machine may be busy; these projects take milliseconds)
-		return ev.V("example:no-result-in-bounded-time", "Example() did not return within 180 s\n%s", tp)
+	case <-time.After(180 * time.Second): // (generous: the machine may be busy; small projects take milliseconds)
+		return ev.V("example:no-result-in-bounded-time", "Example() did not return within 180 s although the whole unfolding of the project is below 100 000 steps\n%s", tp)
 	}
 	return nil
+}
+
+// unfoldWork: an upper bound (capped at limit) of the number of nodes the example builder can visit: every
+// type at most twice on a path, all alternatives of a choice, inherited properties as the heir's own
+func unfoldWork(p *model.Project, limit int) int {
+	steps := 0
+	onPath := map[string]int{}
+	var walk func(n *model.Node)
+	enter := func(name string) {
+		if onPath[name] >= 2 || steps >= limit {
+			return
+		}
+		var node *model.Node
+		if name == "@main" {
+			node = p.Root
+		} else if t := p.Type(name); t != nil {
+			node = t.Node
+		}
+		if node == nil {
+			return
+		}
+		onPath[name]++
+		walk(node)
+		onPath[name]--
+	}
+	var inherited func(n *model.Node, seen map[string]bool)
+	inherited = func(n *model.Node, seen map[string]bool) {
+		for _, r := range n.Rules {
+			if r.Name != "allOf" {
+				continue
+			}
+			names := []string{r.Val.Str}
+			if r.Val.K == "list" {
+				names = nil
+				for _, it := range r.Val.Items {
+					names = append(names, it.Str)
+				}
+			}
+			for _, b := range names {
+				if t := p.Type(b); t != nil && t.Node != nil && !seen[b] {
+					seen[b] = true
+					for _, k := range t.Node.Kids {
+						walk(k)
+					}
+					inherited(t.Node, seen)
+				}
+			}
+		}
+	}
+	walk = func(n *model.Node) {
+		if n == nil || steps >= limit {
+			return
+		}
+		steps++
+		switch n.Kind {
+		case "ref", "choice":
+			for _, r := range n.Refs {
+				enter(r)
+			}
+		default:
+			for _, k := range n.Kids {
+				walk(k)
+			}
+			if n.Kind == "object" {
+				inherited(n, map[string]bool{})
+			}
+		}
+	}
+	walk(p.Root)
+	return steps
 }
 
 func refWithOr(p *model.Project) bool {
